@@ -242,3 +242,54 @@ func runC11Concurrent(cases []string, out *bufio.Writer, _ []string) {
 		log.Destroy()
 	})
 }
+
+func init() { families["c11s"] = runC11ManySites }
+
+// Many distinct call sites. Case: "<fastCaller 0|1> <passes>": each of the generated sites logs once per pass, in order; locations are
+// checked after every pass (a later pass revisits sites whose frames were resolved - and possibly cached - long before).
+// Observation: "<calls> <wrong> <first wrong sites>"
+func runC11ManySites(cases []string, out *bufio.Writer, _ []string) {
+	tag := log.RegisterTag("_c11_probe")
+	ctx := context.Background()
+	for _, line := range cases {
+		f := strings.Fields(line)
+		passes := 1
+		fmt.Sscan(f[1], &passes)
+		cfg := map[string]string{"appender.a.type": "Loc", "logger.lg.type": "Logger", "logger.lg.tags": "_c11_*", "logger.lg.level": "trace",
+			"logger.lg.appenderRef.ref": "a", "enableCaller": "true", "fastCaller": map[string]string{"0": "false", "1": "true"}[f[0]]}
+		if err := log.Refresh(cfg); err != nil {
+			fmt.Fprintln(out, "err")
+			continue
+		}
+		locMu.Lock()
+		locGot = map[string]string{}
+		locMu.Unlock()
+		total, wrong := 0, 0
+		var first []string
+		for p := 0; p < passes; p++ {
+			for i, fn := range c11ManySites {
+				s := &site{ctx: ctx, tag: tag, id: fmt.Sprintf("s%d.%d", p, i)}
+				fn(s)
+				locMu.Lock()
+				got := locGot[s.id]
+				locMu.Unlock()
+				total++
+				if got != s.want {
+					wrong++
+					if len(first) < 3 {
+						first = append(first, fmt.Sprintf("%s:got[%s]want[%s]", s.id, got, s.want))
+					}
+				}
+			}
+		}
+		log.Destroy()
+		locMu.Lock()
+		locGot = map[string]string{}
+		locMu.Unlock()
+		fmt.Fprintf(out, "%d %d %s\n", total, wrong, strings.Join(first, ","))
+	}
+	guard(func() {
+		log.Refresh(map[string]string{"appender.a.type": "Loc", "enableCaller": "true", "fastCaller": "false"})
+		log.Destroy()
+	})
+}
